@@ -83,6 +83,18 @@ func VerifC15Deposit() {
 	worth, err := p.StakeForShares(shares)
 	symx.Assert(err == nil, "StakeForShares failed")
 	symx.Assert(worth.Cmp(a) <= 0, "minted shares are worth more than the deposit")
+	// ... and shares are proportional claims in the other direction too: what the depositor can redeem falls
+	// short of the deposit only by rounding (less than one share's price plus one base unit):
+	// (worth+1)*S' + B > a*S' with S' the new share total and B the old balance
+	if !a.IsZero() {
+		l := worth.Clone()
+		_ = l.Add(quantity.NewFromUint64(1))
+		_ = l.Mul(&p.TotalShares)
+		_ = l.Add(B)
+		r := a.Clone()
+		_ = r.Mul(&p.TotalShares)
+		symx.Assert(l.Cmp(r) > 0, "an accepted deposit is worth less to the depositor than the deposit minus rounding")
+	}
 	// the other holder is not diluted
 	after, err := p.StakeForShares(x)
 	symx.Assert(err == nil, "StakeForShares failed")
